@@ -56,6 +56,7 @@ Fixpoint dom (E : env) (d : desc) (w : pv) {struct d} : bool :=
   | DPrefixMap m => str_in (map fst m) w
   | DCompound ds | DUnion ds => existsb (fun a => dom E a w) ds
   | DRangeDyn _ _ _ => match w with PInt _ => true | _ => false end               (* an int; the bounds move: see dyn_range_in_bounds *)
+  | DEnumDyn _ => true                                 (* membership is relative to the collection of the moment: clauses 6, 7 *)
   | DDict kd vd =>                                     (* a dict whose keys / values lie in the key / value trait's domain *)
       match w with
       | PDict l => forallb (dom E kd) (map fst l) && forallb (dom E vd) (map snd l)
@@ -136,6 +137,7 @@ Fixpoint conv_ok (E : env) (d : desc) (v w : pv) {struct d} : bool :=
   | DCompound ds | DUnion ds => existsb (fun a => conv_ok E a v w) ds
   | DProperty d' => conv_ok E d' v w
   | DRangeDyn _ _ _ => match cast_int v with Returns x => pv_eqb w x | Raises _ => false end     (* type(low)(value) *)
+  | DEnumDyn _ => pv_eqb w v
   | DDict kd vd =>                          (* every stored key / value is the conversion of one of the given keys / values *)
       match v, w with
       | PDict li, PDict lo =>
@@ -227,6 +229,11 @@ Definition dyn_assign_ok (c : cls) (base after : inst) (kw : list (Z * pv)) : bo
           | Some (PInt z), Some (PInt l), Some (PInt h) => int_range_spec z (Some l) (Some h) mask
           | _, _, _ => false
           end
+      | Some (DEnumDyn src, _) =>                       (* a member of the collection as it was when assigned *)
+          match get after n, read c base src with
+          | Some w, Some (PList items) => py_in w items
+          | _, _ => false
+          end
       | _ => true
       end
   | _ => true
@@ -290,6 +297,11 @@ Definition readable_ok (c : cls) (after : inst) (nd : Z * (desc * pv)) : bool :=
       | Some (PInt z), Some (PInt l), Some (PInt h) =>
           if dyn_nonempty l h mask then int_range_spec z (Some l) (Some h) mask else true
       | _, _, _ => true
+      end
+  | (n, (DEnumDyn src, _)) =>                           (* readable => a member of the collection as it is now (None if empty) *)
+      match get after (rname n), read c after src with
+      | Some x, Some (PList items) => match items with [] => pv_eqb x PNone | _ => py_in x items end
+      | _, _ => true
       end
   | _ => true
   end.
